@@ -50,8 +50,10 @@ def setup(ctx):
     _state['ctx'] = ctx
     _mon.attach(Trajectory, 'positions', post=_range_contract, label='Trajectory.positions')
     _mon.attach(Trajectory, 'displacements', label='Trajectory.displacements')
-    _mon.attach(Trajectory, 'cumulative_displacements', label='Trajectory.cumulative_displacements')
-    _mon.attach(Trajectory, 'distances_from_base_position', label='Trajectory.distances_from_base_position')
+    from .. import retain as _rt
+
+    _mon.attach(Trajectory, 'cumulative_displacements', label='Trajectory.cumulative_displacements', retain=_rt.auto)
+    _mon.attach(Trajectory, 'distances_from_base_position', label='Trajectory.distances_from_base_position', retain=_rt.auto, scribble=True)
     _mon.attach(Trajectory, 'to_positions', label='Trajectory.to_positions')
 
 
